@@ -60,7 +60,7 @@ def install(reg):
             if v.lit is not None:
                 return [(st, VInt(len(v.lit)))]
             f = z3.Function('str_len', StrS, I)
-            st.fact(f(v.t) >= 0)
+            st.fact(f(v.t) >= 0, (f(v.t) == 0) == (v.t == str_lit('').t))       # only the empty string has length 0
             return [(st, VInt(f(v.t)))]
         if isinstance(v, VNone):
             return [(ex.raise_exc(st, 'builtins:TypeError'), None)]
